@@ -1167,6 +1167,364 @@ def c11_b64_group(mir, ctx):
     return [g]
 
 
+def c11_packing_group(mir, ctx):
+    """streamname::encode and streamname::decode on names of <= 3 characters: the characters are
+    symbolic Unicode scalar values, the name's length is fixed per path by the iterator model,
+    `String::push` is an event; to_b64 / from_b64 are inlined.  Each function is pinned, token by
+    token, to a reference packing written as SMT terms; the round-trip and injectivity statements
+    are then decided by the solver over the two references."""
+    N = 3
+    enc_fn, dec_fn = mir.find(r"^encode$"), mir.find(r"^decode$")
+    ssrc = open(os.path.join(REPO, "src/internal/streamname.rs")).read()
+    mp = re.search(r"const TABLE_PREFIX: char = '\\u\{([0-9a-fA-F]+)\}'", ssrc)
+    if not mp:
+        raise EncodingError("TABLE_PREFIX not found in streamname.rs")
+    PREFIX = int(mp.group(1), 16)
+
+    def scalar(name):
+        c = ctx.fresh_int(name, None, 0, 0x10FFFF)
+        ctx.side.append("(not (and (>= %s 55296) (<= %s 57343)))" % (c.term, c.term))
+        return c
+
+    def b64(t):          # reference alphabet (pinned to to_b64/from_b64 by the b64_alphabet law)
+        return ("(ite (and (>= {0} 48) (<= {0} 57)) (- {0} 48) (ite (and (>= {0} 65) (<= {0} 90)) (- {0} 55) "
+                "(ite (and (>= {0} 97) (<= {0} 122)) (- {0} 61) (ite (= {0} 46) 62 (ite (= {0} 95) 63 (- 1))))))").format(t)
+
+    def unb64(t):
+        return ("(ite (< {0} 10) (+ {0} 48) (ite (< {0} 36) (+ {0} 55) (ite (< {0} 62) (+ {0} 61) (ite (= {0} 62) 46 95))))").format(t)
+
+    def pk(t):
+        return "(>= %s 0)" % b64(t)
+
+    def ref_encode(cs):
+        """[(condition, [output terms])] over the packability pattern of cs"""
+        cases = []
+        n = len(cs)
+        for bits in range(1 << n):
+            pat = [(bits >> i) & 1 for i in range(n)]
+            cond = [pk(c) if pat[i] else s_not(pk(c)) for i, c in enumerate(cs)]
+            out, i = [], 0
+            while i < n:
+                if pat[i]:
+                    if i + 1 < n and pat[i + 1]:
+                        out.append("(+ 14336 (* 64 %s) %s)" % (b64(cs[i + 1]), b64(cs[i])))
+                        i += 2
+                        continue
+                    out.append("(+ 18432 %s)" % b64(cs[i]))
+                else:
+                    out.append(cs[i])
+                i += 1
+            cases.append((cond, out))
+        return cases
+
+    def ref_decode(es):
+        cases = []
+        n = len(es)
+        for kinds in __import__("itertools").product((0, 1, 2), repeat=n):      # 0 other, 1 two-char, 2 one-char
+            cond, out = [], []
+            for e, kd in zip(es, kinds):
+                if kd == 1:
+                    cond.append("(and (>= %s 14336) (< %s 18432))" % (e, e))
+                    out += [unb64("(mod (- %s 14336) 64)" % e), unb64("(div (- %s 14336) 64)" % e)]
+                elif kd == 2:
+                    cond.append("(and (>= %s 18432) (< %s 18496))" % (e, e))
+                    out.append(unb64("(- %s 18432)" % e))
+                else:
+                    cond.append("(not (and (>= %s 14336) (< %s 18496)))" % (e, e))
+                    out.append(e)
+            cases.append((cond, out))
+        return cases
+
+    def deref(v):
+        while isinstance(v, RefV):
+            v = v.target
+        return v
+
+    def make_models(chars, use_reference_alphabet=True):
+        def m_chars(ex, callee, args, pc, events):
+            ex.heap["$pos"] = 0
+            return [(pc, events, OpaqueV("chars"))]
+
+        def m_same(ex, callee, args, pc, events):
+            return [(pc, events, OpaqueV("chars"))]
+
+        def m_next(ex, callee, args, pc, events):
+            pos = ex.heap.get("$pos", 0)
+            n = ex.heap.get("$n")
+            res = []
+            if (n is None and pos < len(chars)) or (n is not None and pos < n):
+                hp = copy.deepcopy(ex.heap)
+                hp["$pos"] = pos + 1
+                res.append((pc, events, EnumV(variant=1, fields=[IntV(chars[pos].term, "char")]), hp))
+            if n is None or pos >= n:
+                hp = copy.deepcopy(ex.heap)
+                hp["$n"] = pos if n is None else n
+                res.append((pc, events, EnumV(variant=0, fields=[]), hp))
+            return res
+
+        def m_peek(ex, callee, args, pc, events):
+            pos = ex.heap.get("$pos", 0)
+            n = ex.heap.get("$n")
+            res = []
+            if (n is None and pos < len(chars)) or (n is not None and pos < n):
+                hp = copy.deepcopy(ex.heap)
+                hp.setdefault("$min", 0)
+                hp["$min"] = max(hp["$min"], pos + 1)
+                res.append((pc, events, EnumV(variant=1, fields=[RefV(IntV(chars[pos].term, "char"))]), hp))
+            if (n is None and pos >= ex.heap.get("$min", 0)) or (n is not None and pos >= n):
+                hp = copy.deepcopy(ex.heap)
+                hp["$n"] = pos if n is None else n
+                res.append((pc, events, EnumV(variant=0, fields=[]), hp))
+            return res
+
+        def m_next_min(ex, callee, args, pc, events):
+            # next() after a successful peek at the same position cannot be None
+            pos = ex.heap.get("$pos", 0)
+            out = m_next(ex, callee, args, pc, events)
+            if ex.heap.get("$n") is None and pos < ex.heap.get("$min", 0):
+                out = [o for o in out if o[2].variant == 1]
+            return out
+
+        def m_push(ex, callee, args, pc, events):
+            v = deref(ex.load(args[1]))
+            return [(pc, events + [("push", v.term)], TupleV([]))]
+
+        def m_opt_eq(ex, callee, args, pc, events):
+            a, b = deref(ex.load(args[0])), deref(ex.load(args[1]))
+            def parts(o):
+                if isinstance(o, EnumV) and o.variant in (1, "Some"):
+                    return deref(o.fields[0])
+                return None
+            pa, pb = parts(a), parts(b)
+            if pa is None or pb is None:
+                return [(pc, events, BoolV("true" if (pa is None and pb is None) else "false", pa is None and pb is None))]
+            return [(pc, events, BoolV("(= %s %s)" % (pa.term, pb.term)))]
+
+        def m_contains(ex, callee, args, pc, events):
+            r, v = deref(ex.load(args[0])), deref(ex.load(args[1]))
+            lo, hi = deref(r.fields[0]), deref(r.fields[1])
+            return [(pc, events, BoolV("(and (>= %s %s) (< %s %s))" % (v.term, lo.term, v.term, hi.term)))]
+
+        def rng(lo, hi):
+            return lambda ex, callee, args, pc, events: [(pc, events, BoolV("(and (>= %s %d) (<= %s %d))" % (deref(ex.load(args[0])).term, lo, deref(ex.load(args[0])).term, hi)))]
+
+        def m_from_u32(ex, callee, args, pc, events):
+            v = deref(ex.load(args[0]))
+            valid = "(and (>= %s 0) (<= %s 1114111) (not (and (>= %s 55296) (<= %s 57343))))" % (v.term, v.term, v.term, v.term)
+            return [(pc + [valid], events, EnumV(variant=1, fields=[IntV(v.term, "char", v.const)])), (pc + [s_not(valid)], events, EnumV(variant=0, fields=[]))]
+
+        def m_unwrap(ex, callee, args, pc, events):
+            o = deref(ex.load(args[0]))
+            if o.variant in (1, "Some"):
+                return [(pc, events, o.fields[0])]
+            return [(pc, events, Outcome("panic", pc, msg="unwrap on None (char::from_u32 refused the packed value)", events=events))]
+
+        def m_to_b64(ex, callee, args, pc, events):
+            c = deref(ex.load(args[0]))
+            if not isinstance(c, IntV):
+                raise EncodingError("to_b64 is applied to %r, not to a character of the name" % (c,))
+            return [(pc + [pk(c.term)], events, EnumV(variant=1, fields=[IntV(b64(c.term), "u32")])), (pc + [s_not(pk(c.term))], events, EnumV(variant=0, fields=[]))]
+
+        def m_from_b64(ex, callee, args, pc, events):
+            v = deref(ex.load(args[0]))
+            return [(pc, events + [("from_b64", v.term)], IntV(unb64(v.term), "char"))]
+
+        if use_reference_alphabet:
+            alpha = [(r"^to_b64$", m_to_b64), (r"^from_b64$", m_from_b64)]
+        else:
+            alpha = []
+        return alpha + [(r"impl str>::chars$", m_chars), (r"as Iterator>::peekable$|as IntoIterator>::into_iter$", m_same),
+                (r"<(Peekable<)?Chars<'_>>? as Iterator>::next$", m_next_min), (r"Peekable::<Chars<'_>>::peek$", m_peek),
+                (r"^String::push$", m_push), (r"^String::(new|with_capacity)$", lambda ex, callee, args, pc, events: [(pc, events, OpaqueV("output"))]),
+                (r"String as Extend<.*>>::extend::<|^String::push_str$|^String::insert", lambda ex, callee, args, pc, events: [(pc, events + [("push", "(- 1)")], TupleV([]))]),
+                (r"<Option<&char> as PartialEq>::eq$", m_opt_eq), (r"Range::<u32>::contains::<u32>$", m_contains),
+                (r"impl char>::is_ascii_digit$", rng(48, 57)), (r"impl char>::is_ascii_uppercase$", rng(65, 90)), (r"impl char>::is_ascii_lowercase$", rng(97, 122)),
+                (r"(^|::)from_u32$", m_from_u32), (r"Option::<char>::unwrap$", m_unwrap)]
+
+    g = Group("name_packing", ["streamname::encode", "streamname::decode", "streamname::to_b64", "streamname::from_b64"], confirm=_c11_packing_confirm,
+              note="for every name of <= 3 characters: encode emits, token by token, the reference packing (two packable neighbours -> one unit "
+                   "0x3800 + (b64(second) << 6) + b64(first), a lone packable -> 0x4800 + b64, anything else unchanged; the table marker first iff "
+                   "is_table) and never panics; decode inverts it token by token (marker recognised only in first position); hence, over the two "
+                   "references, decode(encode(n, t)) = (n, t) for every name none of whose characters lies in 0x3800..=0x4840, and two different "
+                   "such names never encode alike")
+    # ---- the alphabet functions equal the reference terms used below (so that they may stand in for them)
+    ca = scalar("alpha_c")
+    exa = M.Exec(mir, ctx, models=make_models([], use_reference_alphabet=False), havoc_unknown=True)
+    for k, o in enumerate(exa.run(mir.find(r"^to_b64$"), [IntV(ca.term, "char")]) + exa._pending_panics):
+        if o.kind == "panic":
+            g.queries.append(Query("to_b64_panic_%d" % k, o.pc, "unsat", note=o.msg))
+        elif o.kind == "return":
+            opt = deref(o.value)
+            if opt.variant in (1, "Some"):
+                g.queries.append(Query("to_b64_ref_%d" % k, o.pc + ["(not (= %s %s))" % (deref(opt.fields[0]).term, b64(ca.term))], "unsat", get={"c": ca.term}, note="to_b64 differs from the reference alphabet"))
+            else:
+                g.queries.append(Query("to_b64_ref_none_%d" % k, o.pc + [pk(ca.term)], "unsat", get={"c": ca.term}, note="to_b64 refuses a character of the reference alphabet"))
+    exa._pending_panics = []
+    va = ctx.fresh_int("alpha_v", None, 0, 63)
+    for k, o in enumerate(exa.run(mir.find(r"^from_b64$"), [IntV(va.term, "u32")]) + exa._pending_panics):
+        if o.kind == "panic":
+            g.queries.append(Query("from_b64_panic_%d" % k, o.pc, "unsat", note=o.msg))
+        elif o.kind == "return":
+            g.queries.append(Query("from_b64_ref_%d" % k, o.pc + ["(not (= %s %s))" % (deref(o.value).term, unb64(va.term))], "unsat", get={"v": va.term}, note="from_b64 differs from the reference alphabet on 0..63"))
+    exa._pending_panics = []
+    # ---- encode pinned to the reference
+    chars = [scalar("c%d" % i) for i in range(N)]
+    for is_table in (False, True):
+        ex = M.Exec(mir, ctx, models=make_models(chars), havoc_unknown=True)
+        ex.max_revisit = N + 2
+        outs = ex.run(enc_fn, [OpaqueV("name"), M.mk_bool(is_table)])
+        outs = outs + ex._pending_panics
+        ex._pending_panics = []
+        nret = 0
+        for k, o in enumerate(outs):
+            if o.kind == "panic":
+                g.queries.append(Query("encode_panic_%d_%d" % (is_table, k), o.pc, "unsat", get={c.term: c.term for c in chars}, note="encode can panic: %s" % o.msg))
+                continue
+            if o.kind != "return":
+                continue
+            n = o.heap.get("$n")
+            if n is None:
+                raise EncodingError("encode returns without having exhausted its input")
+            nret += 1
+            pushes = [e[1] for e in o.events if e[0] == "push"]
+            if is_table:
+                if not pushes or pushes[0] != str(PREFIX):
+                    g.queries.append(Query("encode_marker_%d" % k, o.pc, "unsat", note="encode(.., true) does not start with the table marker"))
+                    continue
+                pushes = pushes[1:]
+            cs = [c.term for c in chars[:n]]
+            for ci, (cond, want) in enumerate(ref_encode(cs)):
+                if len(want) != len(pushes):
+                    g.queries.append(Query("encode_len_%d_%d_%d" % (is_table, k, ci), o.pc + cond, "unsat", get={c: c for c in cs},
+                                           note="encode emits %d units where the reference packing of this %d-character name has %d" % (len(pushes), n, len(want))))
+                else:
+                    neq = s_or(["(not (= %s %s))" % (a, b) for a, b in zip(pushes, want)]) if want else "false"
+                    g.queries.append(Query("encode_tok_%d_%d_%d" % (is_table, k, ci), o.pc + cond + [neq], "unsat", get={c: c for c in cs},
+                                           note="encode emits a unit that differs from the reference packing (order of units, pairing of neighbours, or value)"))
+            if len(g.witness) < 30:
+                g.witness.append(Query("we_%d_%d" % (is_table, k), o.pc, "sat"))
+        if nret < N + 1:
+            raise EncodingError("encode: only %d returning paths" % nret)
+    # ---- decode pinned to the reference
+    es = [scalar("e%d" % i) for i in range(N)]
+    ex = M.Exec(mir, ctx, models=make_models(es), havoc_unknown=True)
+    ex.max_revisit = N + 2
+    outs = ex.run(dec_fn, [OpaqueV("name")])
+    outs = outs + ex._pending_panics
+    ex._pending_panics = []
+    nret = 0
+    for k, o in enumerate(outs):
+        if o.kind == "panic":
+            g.queries.append(Query("decode_panic_%d" % k, o.pc, "unsat", get={c.term: c.term for c in es}, note="decode can panic: %s" % o.msg))
+            continue
+        if o.kind != "return":
+            continue
+        n = o.heap.get("$n")
+        if n is None:
+            raise EncodingError("decode returns without having exhausted its input")
+        nret += 1
+        pushes = [e[1] for e in o.events if e[0] == "push"]
+        flag = deref(o.value.fields[1]) if isinstance(o.value, TupleV) and len(o.value.fields) == 2 else None
+        if not isinstance(flag, BoolV):
+            raise EncodingError("decode returns %r" % (o.value,))
+        for e in o.events:
+            if e[0] == "from_b64":
+                g.queries.append(Query("decode_arg_%d_%d" % (k, len(g.queries)), o.pc + ["(not (and (>= %s 0) (< %s 64)))" % (e[1], e[1])], "unsat", note="decode calls from_b64 with a value outside 0..63"))
+        ets = [c.term for c in es[:n]]
+        marked = "(= %s %d)" % (ets[0], PREFIX) if n else "false"
+        g.queries.append(Query("decode_flag_%d" % k, o.pc + ["(not (= %s %s))" % (flag.term, marked)], "unsat", get={c: c for c in ets},
+                               note="decode reports is_table although the name does not start with the table marker, or the other way round"))
+        for marker_case in ((True, ets[1:]), (False, ets)) if n else ((False, ets),):
+            mk, body = marker_case
+            for ci, (cond, want) in enumerate(ref_decode(body)):
+                cnd = o.pc + cond + [marked if mk else s_not(marked)]
+                if len(want) != len(pushes):
+                    g.queries.append(Query("decode_len_%d_%d_%d" % (k, mk, ci), cnd, "unsat", get={c: c for c in ets}, note="decode emits %d characters where the reference unpacking has %d" % (len(pushes), len(want))))
+                else:
+                    neq = s_or(["(not (= %s %s))" % (a, b) for a, b in zip(pushes, want)]) if want else "false"
+                    g.queries.append(Query("decode_tok_%d_%d_%d" % (k, mk, ci), cnd + [neq], "unsat", get={c: c for c in ets}, note="decode emits a character that differs from the reference unpacking"))
+        if len(g.witness) < 60:
+            g.witness.append(Query("wd_%d" % k, o.pc, "sat"))
+    if nret < N + 1:
+        raise EncodingError("decode: only %d returning paths" % nret)
+    # ---- is_valid(name, false) = true only for names none of whose characters lies in the packing's own range and that do
+    # not start with the table marker (the names for which the round trip below is claimed)
+    def clean(t):
+        return "(not (and (>= %s 14336) (< %s 18496)))" % (t, t)
+    vs = [scalar("v%d" % i) for i in range(N)]
+    val_fn = mir.find(r"^is_valid$")
+    vmodels = [(r"impl str>::is_empty$", lambda ex, callee, args, pc, events: [(pc, events, BoolV(ctx.fresh_bool("name_is_empty").term))]),
+               (r"impl str>::starts_with::<char>$", lambda ex, callee, args, pc, events: [(pc, events + [("starts_with",)], BoolV("(= %s %d)" % (vs[0].term, PREFIX)))]),
+               (r"^encode$", lambda ex, callee, args, pc, events: [(pc, events, OpaqueV("encoded"))])] + make_models(vs)
+    ex = M.Exec(mir, ctx, models=vmodels, havoc_unknown=True)
+    ex.max_revisit = N + 2
+    outs = ex.run(val_fn, [OpaqueV("name"), M.mk_bool(False)])
+    nv = 0
+    for k, o in enumerate(outs):
+        if o.kind != "return":
+            continue
+        r = deref(o.value)
+        if not isinstance(r, BoolV):
+            raise EncodingError("is_valid returns %r" % (r,))
+        n = o.heap.get("$n")
+        if n is None:
+            # returned without going through the characters: must not be `true`
+            g.queries.append(Query("valid_unchecked_%d" % k, o.pc + [r.term], "unsat",
+                                   note="is_valid accepts a stream name without having looked at all of its characters (a character in 0x3800..0x4840 makes two accepted names encode alike, e.g. \"00\" and \"\\u{3800}\")"))
+            continue
+        nv += 1
+        body = [clean(c.term) for c in vs[:n]] + (["(not (= %s %d))" % (vs[0].term, PREFIX)] if n else [])
+        g.queries.append(Query("valid_clean_%d" % k, o.pc + [r.term, s_not(s_and(body)) if body else "false"], "unsat", get={c.term: c.term for c in vs[:n]},
+                               note="is_valid accepts a stream name containing a character of the packing's own range 0x3800..0x4840, or starting with the table marker"))
+        g.witness.append(Query("wv_%d" % k, o.pc, "sat"))
+    if nv < 2:
+        g.queries.append(Query("valid_never_scans", [], "unsat", note="is_valid never goes through the characters of the name: names containing characters of the packing's own range "
+                                                                          "0x3800..0x4840 are accepted, and two accepted names encode alike (e.g. \"00\" and \"\\u{3800}\")"))
+    # ---- over the references: round trip and injectivity for accepted stream names
+    def ref_decode_marked(es):
+        """decode reference including the table marker in first position: [(cond, outputs, is_table term)]"""
+        out = []
+        for cond, dec in ref_decode(es):
+            out.append((cond + (["(not (= %s %d))" % (es[0], PREFIX)] if es else []), dec, "false"))
+        if es:
+            for cond, dec in ref_decode(es[1:]):
+                out.append((cond + ["(= %s %d)" % (es[0], PREFIX)], dec, "true"))
+        return out
+    for n in range(1, N + 1):
+        cs = [scalar("r%d_%d" % (n, i)).term for i in range(n)]
+        acc = [clean(c) for c in cs] + ["(not (= %s %d))" % (cs[0], PREFIX)]
+        for ci, (cond, enc) in enumerate(ref_encode(cs)):
+            for di, (dcond, dec, tbl) in enumerate(ref_decode_marked(enc)):
+                base = acc + cond + dcond
+                if len(dec) != n or tbl == "true":
+                    g.queries.append(Query("roundtrip_shape_%d_%d_%d" % (n, ci, di), base, "unsat", note="reference round trip of an accepted stream name changes its length or reports a table"))
+                else:
+                    g.queries.append(Query("roundtrip_%d_%d_%d" % (n, ci, di), base + [s_or(["(not (= %s %s))" % (a, b) for a, b in zip(dec, cs)])], "unsat",
+                                           note="reference round trip decode(encode(n)) != n for an accepted stream name"))
+    for n in (1, 2):
+        for m in (1, 2):
+            cs = [scalar("i%d%d_a%d" % (n, m, i)).term for i in range(n)]
+            ds = [scalar("i%d%d_b%d" % (n, m, i)).term for i in range(m)]
+            acc = [clean(c) for c in cs + ds] + ["(not (= %s %d))" % (cs[0], PREFIX), "(not (= %s %d))" % (ds[0], PREFIX)]
+            differ = "true" if n != m else s_or(["(not (= %s %s))" % (a, b) for a, b in zip(cs, ds)])
+            for ci, (c1, e1) in enumerate(ref_encode(cs)):
+                for dj, (c2, e2) in enumerate(ref_encode(ds)):
+                    if len(e1) != len(e2):
+                        continue
+                    g.queries.append(Query("inj_%d_%d_%d_%d" % (n, m, ci, dj), acc + c1 + c2 + [differ] + ["(= %s %s)" % (a, b) for a, b in zip(e1, e2)], "unsat",
+                                           note="two different accepted stream names have the same reference encoding"))
+    return [g]
+
+
+def _c11_packing_confirm(model, native):
+    out = native("native::c11::replay_packing", {})
+    if not out.get("_ran"):
+        return None, "native replay did not run"
+    if out.get("_panicked"):
+        return True, "native packing replay panicked: %s" % out.get("_panic_msg")
+    return (out.get("differs") == 1), (out.get("witness") or "all %s names round-trip and encode distinctly natively" % out.get("checked"))
+
+
 def c11_listing_group(mir, ctx):
     """Streams::next, its skip loop unrolled (<= 2 container entries per call): which entries are
     listed and under what name.  Container entries, Entry::is_stream, the comparisons of the entry's
@@ -1289,7 +1647,7 @@ def c11_listing_group(mir, ctx):
 
 def c11_all(mir, ctx):
     from .mir_protocol import protocol_groups
-    return c11_b64_group(mir, ctx) + protocol_groups(mir, ctx, {"reject"}) + c11_listing_group(mir, ctx)
+    return c11_b64_group(mir, ctx) + protocol_groups(mir, ctx, {"reject"}) + c11_listing_group(mir, ctx) + c11_packing_group(mir, ctx)
 
 
 def iter_models(ctx, lens, consistent=False):
